@@ -220,7 +220,7 @@ pub(crate) fn schema_impl(input: SchemaDeriveInput) -> Result<TokenStream, Error
 				// Only unit variants
 				type_lookup = parse_quote!(Self);
 				type_lookup_decl = None;
-				let variants = variants.iter().map(|v| v.ident.to_string());
+				let variants = variants.iter().map(|v| v.ident.unraw().to_string());
 				quote! {
 					#type_name_var
 					builder.nodes.push(
